@@ -212,7 +212,7 @@ func runC19(c *sim.Ctx, t *testing.T) {
 			continue
 		}
 		// faults
-		st.fault = []string{"none", "none", "dup", "drop", "dup+drop", "reorder", "late", "noise", "forbidden", "guard-reject", "reject-all", "forbidden-in-required", "exit-early", "forbidden-seen-before", "forbidden-guarded", "forbidden-on-guard-error"}[c.Intn(16, "fault")]
+		st.fault = []string{"none", "none", "dup", "drop", "dup+drop", "reorder", "late", "noise", "forbidden", "guard-reject", "reject-all", "forbidden-in-required", "exit-early", "forbidden-seen-before", "forbidden-guarded", "forbidden-on-guard-error", "same-pattern-other-guard"}[c.Intn(17, "fault")]
 		req := len(st.lines)
 		switch st.fault {
 		case "dup":
@@ -364,6 +364,30 @@ func runC19(c *sim.Ctx, t *testing.T) {
 			}
 		case "reject-all":
 			st.outputs[0].guard = "reject"
+		case "same-pattern-other-guard":
+			// this step asks for the very pattern an earlier step asked for, with another guard:
+			// one that accepts nothing.  Each output is judged by its own guard.
+			var prev *xOutput
+			for _, ps := range steps[:i] {
+				for j := range ps.outputs {
+					if po := &ps.outputs[j]; !po.inverted && po.withVar && !po.propVar && po.multi == 0 && po.guard != "reject" {
+						prev = po
+					}
+				}
+			}
+			if prev == nil {
+				st.fault = "none"
+				break
+			}
+			old := st.outputs[0]
+			o := xOutput{key: prev.key, withVar: true, bang: prev.bang, guard: "reject"}
+			st.outputs[0] = o
+			for k := range st.lines {
+				if strings.Contains(st.lines[k].text, `"k":"`+old.key+`"`) {
+					st.lines[k].text = line(o, 2)
+					st.lines[k].why = "matches the pattern of " + o.key + " as an earlier step had it; this step's guard accepts nothing"
+				}
+			}
 		}
 		if len(st.lines) > 0 && c.Chance(1, 8, "bigexpected") {
 			k := c.Intn(len(st.lines), "bigwhich")
